@@ -168,13 +168,13 @@ let () =
       let t = { a = Array.of_list (List.filter (fun s -> s <> "") (String.split_on_char ' ' (String.trim line))); i = 0 } in
       (try
         match next t with
-        | "syncw" ->
+        | ("syncw" | "syncwk") as cmd ->     (* syncwk: the content is the in-memory state after the scan of the SAME run: past hashes kept *)
           let ff = nint t <> 0 in let fpu = nint t <> 0 in let iol = nint t in let now = nint t in
           let bs = nint t in let nlev = nint t in let stop = nint t in let start = nint t in let mx = nint t in
           expect t "M";
           let cache = nint t in let lag = nint t in
           let hashf = parse_hashes t in
-          let c = clear_past (parse_content t) in
+          let c = if cmd = "syncwk" then parse_content t else clear_past (parse_content t) in
           let p = parse_parity t in
           let fs = parse_fs t in
           let faults = parse_faults t in
